@@ -487,7 +487,7 @@ func main() {
 	r := cfg.Rand
 	nRandom := 1200
 	if cfg.Thorough() {
-		nRandom = 12000
+		nRandom = 6000
 	}
 	randBytes := func(side string) []byte {
 		var n int
